@@ -11,11 +11,19 @@ code -> spec : larger random permutations (all methods), permuta.misc.math.is_pr
                integers, preservation on random bijections between longer permutations and distributions
                over class levels of length 6, validated by Trace_C11.
 
+Hardening probes: Trace_C11b judges one cheap statistic / listing / table entry per event on permutations of length
+               7-10 - every cheap statistic on structured inputs (monotone, layered, simple, involutions, extreme
+               entries at the ends), a sample on random ones, each object asked twice; the tools are asked again on
+               the same statistic object after other classes and levels, with keyword arguments, after the class was
+               enumerated further and after Av.clear_cache(), with two lazy answers alive at once, on an equal
+               dictionary filled in the opposite order, and on degenerate bijections (empty, empty -> empty).
+
 Known findings (accepted only with the matching entry of known_findings.json, else a VIOLATION):
   Stat14_15_LongestRun, Layers_UnstandardisedSeed, ForeAfter_StepTwoAscent (named deviation operators
   StDev_* of specs/lib/Stats.tla).
 """
 import concurrent.futures
+import inspect
 import json
 import os
 import tempfile
@@ -328,6 +336,24 @@ def traceable(obs):
 # ------------------------------------------------------------------------------------------------
 # the tools
 # ------------------------------------------------------------------------------------------------
+_KW_DRIFT = set()
+
+
+def kw_or_positional(ctx, f, names, *args):
+    """f called with its documented parameter names as keywords; on a tree where a parameter is named differently the
+    call is made positionally instead (drift, never a verdict)."""
+    kw = dict(zip(names, args))
+    try:
+        inspect.signature(f).bind(**kw)
+    except (TypeError, ValueError) as e:
+        key = getattr(f, "__name__", str(f))
+        if key not in _KW_DRIFT:
+            _KW_DRIFT.add(key)
+            ctx.drift("keyword form of %s not available (%s): called positionally" % (key, e))
+        return f(*args)
+    return f(**kw)
+
+
 def av_of(basis):
     return Av(Basis(*[Perm(b) for b in basis])) if basis else None
 
@@ -390,6 +416,31 @@ def replay_dist(ctx, judge, r, tab, rows):
         devs = {dev_of_index(k): strip(r["d"][DEVIATING.index(k)])} if k in DEVIATING else {}
         judge.judge(case, "DistributionIsDefinition", strip(r["i"][k - 1]), devs, strip(got))
         rows.setdefault((tuple(basis), k), {})[n] = got
+        if (k + n + len(basis)) % 5 == 0:
+            # history: ONE statistic object asked twice more - keyword arguments, the class enumerated beyond the level in
+            # between, then after the class forgot what it had enumerated
+            stat = PS.get_by_index(idx)
+            again = []
+            # (unjudged fillers: the same object asked about other classes and levels first)
+            util.call(lambda: stat.distribution_for_length(n))
+            util.call(lambda: stat.distribution_for_length(n, Av(Basis(Perm((0, 1, 2, 3, 4))))))
+            util.call(lambda: stat.distribution_for_length(max(n - 1, 0), av))
+            st, a1 = util.call(lambda: kw_or_positional(ctx, stat.distribution_for_length, ("n", "perm_class"), n, av))
+            again.append(("same object, keyword arguments", st, a1))
+            if av is not None:
+                util.call(lambda: [len(list(av.of_length(m))) for m in range(n + 3)])
+            st, a2 = util.call(lambda: stat.distribution_for_length(n, av))
+            again.append(("same object, class enumerated to length n + 2 in between", st, a2))
+            if av is not None and hasattr(Av, "clear_cache"):
+                util.call(Av.clear_cache)
+                st, a3 = util.call(lambda: stat.distribution_for_length(n, av_of(basis)))
+                again.append(("after Av.clear_cache()", st, a3))
+            for hist, st, val in again:
+                c2 = dict(case, history=hist)
+                if st == "raise" or not isinstance(val, list):
+                    ctx.violation(c2, "NoException", r["i"][k - 1], {"raised": val})
+                else:
+                    judge.judge(c2, "DistributionIsDefinition", strip(r["i"][k - 1]), devs, strip(val))
 
 
 def replay_up_to(ctx, judge, rows, tab, maxlen):
@@ -418,6 +469,27 @@ def replay_eq(ctx, judge, r, tab):
         judge_members(judge, dict(case, tool="equally_distributed"), "EquallyDistributedIff", known,
                       [k for k in idx_of_names(got, tab) if k], r["eqI"], r["eqD"],
                       lambda k: dev_of_indices([k]))
+    # lazy answers: two iterators of the same question alive at once, advanced in turn; each must give the whole answer
+    def in_turn():
+        g1, g2 = PS.equally_distributed(a, b, n), kw_or_positional(ctx, PS.equally_distributed, ("class1", "class2", "n"), a, b, n)
+        o1, o2, live = [], [], [True, True]
+        while any(live):
+            for j, (g, o) in enumerate(((g1, o1), (g2, o2))):
+                if live[j]:
+                    x = next(g, None)
+                    if x is None:
+                        live[j] = False
+                    else:
+                        o.append(x)
+        return o1, o2
+    st, got = util.call(in_turn)
+    if st == "raise":
+        ctx.violation(dict(case, history="two iterators alive"), "NoException", r["eqI"], {"raised": got})
+    else:
+        for which, lst in zip(("first", "second (keyword arguments)"), got):
+            judge_members(judge, dict(case, tool="equally_distributed", history="two iterators alive at once, advanced in turn: " + which),
+                          "EquallyDistributedIff", known, [k for k in idx_of_names(lst, tab) if k], r["eqI"], r["eqD"],
+                          lambda k: dev_of_indices([k]))
     st, got = util.call(lambda: list(PS.jointly_equally_distributed(a, b, n, 2)))
     if st == "raise":
         ctx.violation(case, "NoException", "pairs", {"raised": got})
@@ -507,6 +579,51 @@ def replay_bij(ctx, judge, r, tab):
     univ = [(k, l) for k in known for l in known]
     judge_members(judge, dict(case, tool="check_all_transformed", reported_pairs=len(obs), pairs_by_definition=len(r["transI"])),
                   "TransformedIff", univ, obs, [tuple(x) for x in r["transI"]], [tuple(x) for x in r["transD"]], dev_of_indices)
+    # history: the same questions after each other on the same dictionary, on an equal dictionary filled in the opposite
+    # order, two lazy answers alive at once, one statistic object asked about several bijections
+    rev = {Perm(k): Perm(v) for k, v in reversed(r["bij"])}
+
+    def in_turn():
+        g1, g2 = PS.check_all_preservations(bij), kw_or_positional(ctx, PS.check_all_preservations, ("bijection",), rev)
+        o1, o2, live = [], [], [True, True]
+        while any(live):
+            for j, (g, o) in enumerate(((g1, o1), (g2, o2))):
+                if live[j]:
+                    x = next(g, None)
+                    if x is None:
+                        live[j] = False
+                    else:
+                        o.append(x)
+        return o1, o2
+    st, got = util.call(in_turn)
+    if st == "raise":
+        ctx.violation(dict(case, history="two iterators alive"), "NoException", r["presI"], {"raised": got})
+    else:
+        for which, lst in zip(("same dictionary again", "equal dictionary filled in reverse order"), got):
+            judge_members(judge, dict(case, tool="check_all_preservations", history="after check_all_transformed, two iterators alive: " + which),
+                          "PreservedIff", known, [k for k in idx_of_names(lst, tab) if k], r["presI"], r["presD"], lambda k: dev_of_indices([k]))
+    st, got2 = util.call(lambda: PS.check_all_transformed(rev))
+    if st == "raise" or not isinstance(got2, dict):
+        ctx.violation(dict(case, history="asked again"), "NoException", "a dictionary", {"raised": got2})
+    else:
+        obs2 = []
+        for n1, lst in got2.items():
+            for n2 in lst:
+                ks = idx_of_names([n1, n2], tab)
+                if None not in ks:
+                    obs2.append(tuple(ks))
+        judge_members(judge, dict(case, tool="check_all_transformed", history="asked again, equal dictionary filled in reverse order"),
+                      "TransformedIff", univ, obs2, [tuple(x) for x in r["transI"]], [tuple(x) for x in r["transD"]], dev_of_indices)
+    other = {Perm((0, 1)): Perm((1, 0)), Perm((1, 0, 2)): Perm((0, 1, 2))}
+    single2 = []
+    for k in known:
+        stat = PS.get_by_index(tab[NAMES[k - 1]][0])
+        util.call(stat.preserved_in, other)
+        st, v = util.call(lambda: kw_or_positional(ctx, stat.preserved_in, ("bijection",), rev))
+        if st == "ok" and v is True:
+            single2.append(k)
+    judge_members(judge, dict(case, tool="preserved_in", history="one statistic object asked about another bijection first; keyword argument"),
+                  "PreservedIff", known, single2, r["presI"], r["presD"], lambda k: dev_of_indices([k]))
 
 
 # ------------------------------------------------------------------------------------------------
@@ -675,6 +792,172 @@ def judge_trace(ctx, judge, events, verdict):
         ctx.violation(dict(case, clause_detail=clause), clause.split(":")[0], "value of the definition (Stats.tla)", observed)
 
 
+ONE_INT = {
+    "holeyness": lambda P: P.holeyness(), "bounces": lambda P: P.count_bounces(), "max_drop_size": lambda P: P.max_drop_size(),
+    "column_sum_primes": lambda P: P.count_column_sum_primes(), "order": lambda P: P.order(), "depth": lambda P: P.depth(),
+    "major_index": lambda P: P.major_index(), "inversions": lambda P: P.count_inversions(),
+    "longest_decreasing_run": lambda P: P.length_of_longestrun_descending(),
+    "longest_ascending_run": lambda P: P.length_of_longestrun_ascending(),
+    "non_inversions": lambda P: P.count_non_inversions(), "descents": lambda P: P.count_descents(), "ascents": lambda P: P.count_ascents(),
+    "peaks": lambda P: P.count_peaks(), "valleys": lambda P: P.count_valleys(), "pinnacles": lambda P: P.count_pinnacles(),
+    "cycles": lambda P: P.count_cycles(), "fixed_points": lambda P: P.count_fixed_points(),
+    "ltrmin": lambda P: P.count_ltrmin(), "ltrmax": lambda P: P.count_ltrmax(), "rtlmin": lambda P: P.count_rtlmin(),
+    "rtlmax": lambda P: P.count_rtlmax(), "cyclic_peaks": lambda P: P.count_cyclic_peaks(),
+    "cyclic_valleys": lambda P: P.count_cyclic_valleys(), "double_excedance": lambda P: P.count_double_excedance(),
+    "double_drops": lambda P: P.count_double_drops(), "inc_bonds": lambda P: P.count_inc_bonds(),
+    "dec_bonds": lambda P: P.count_dec_bonds(), "bonds": lambda P: P.count_bonds(),
+    "stack_sorts": lambda P: P.count_stack_sorts(), "pop_stack_sorts": lambda P: P.count_pop_stack_sorts(),
+    "maximal_decreasing_run": lambda P: P.maximal_decreasing_run(), "min_gapsize": lambda P: P.min_gapsize(),
+    "is_involution": lambda P: {True: 1, False: 0}[P.is_involution()],
+}
+ONE_LIST = {
+    "descent_set": lambda P: srt(P.descent_set()), "ascent_set": lambda P: srt(P.ascent_set()), "peak_list": lambda P: srt(P.peak_list()),
+    "valley_list": lambda P: srt(P.valley_list()), "pinnacle_set": lambda P: srt(P.pinnacle_set()), "bend_list": lambda P: srt(P.bend_list()),
+    "ltrmin": lambda P: srt(P.ltrmin()), "ltrmax": lambda P: srt(P.ltrmax()), "rtlmin": lambda P: srt(P.rtlmin()), "rtlmax": lambda P: srt(P.rtlmax()),
+    "fixed_points": lambda P: srt(P.fixed_points()), "strong_fixed_points": lambda P: srt(P.strong_fixed_points()),
+    "inc_bonds": lambda P: srt(P.inc_bonds()), "dec_bonds": lambda P: srt(P.dec_bonds()), "all_bonds": lambda P: srt(P.all_bonds()),
+    "cyclic_peaks_list": lambda P: srt(P.cyclic_peaks_list()), "cyclic_valleys_list": lambda P: srt(P.cyclic_valleys_list()),
+    "double_excedance_list": lambda P: srt(P.double_excedance_list()), "double_drops_list": lambda P: srt(P.double_drops_list()),
+    "rank_encoding": lambda P: list(P.rank_encoding()), "cycle_decomp": lambda P: canon_cycles(P.cycle_decomp()),
+    "longestruns_ascending": lambda P: runs(P.longestruns_ascending()), "longestruns_descending": lambda P: runs(P.longestruns_descending()),
+}
+LIST_SHAPE = {"cycle_decomp": "cycles", "longestruns_ascending": "lra", "longestruns_descending": "lrd"}
+ORIGINAL_ONE = ["bounces", "max_drop_size", "column_sum_primes", "order", "depth", "major_index", "inversions", "longest_decreasing_run"]
+# entries of the table without a named deviation (1-based positions in NAMES); holeyness (21) only up to length 8 there
+NAMED_CHEAP = [k for k in range(1, 33) if k not in DEVIATING]
+SHORTCUTS = ("inv", "maj", "des", "asc")        # PermutationStatistic.inv() ...: the same statistics, "for easy access"
+
+
+def special_perms(rnd, n):
+    """Structured permutations of length n (input selection only): monotone, layered, simple, involutions, an inflation of a
+    simple permutation by monotone blocks, extreme entries at the ends."""
+    out = [list(range(n)), list(range(n - 1, -1, -1))]
+    cuts = sorted(rnd.sample(range(1, n), min(3, n - 1)))
+    layered, lo = [], 0
+    for c in cuts + [n]:
+        layered += list(range(c - 1, lo - 1, -1))
+        lo = c
+    out += [layered, [n - 1 - v for v in layered]]
+    m = n // 2
+    par = [2 * i + 1 for i in range(m)] + [2 * i for i in range(m)]
+    if n % 2:
+        par = par[:m] + [n - 1] + par[m:]
+    out.append(par)
+    inv = list(range(n))
+    idx = list(range(n))
+    rnd.shuffle(idx)
+    for a, b in zip(idx[0::2], idx[1::2][: max(1, n // 3)]):
+        inv[a], inv[b] = b, a
+    out.append(inv)
+    full = list(range(n))                      # fixed-point-free involution (n even) / one fixed point
+    for a in range(0, n - 1, 2):
+        full[a], full[a + 1] = a + 1, a
+    out.append(full)
+    sizes = [1, 1, 1, 1]
+    for _ in range(n - 4):
+        sizes[rnd.randrange(4)] += 1
+    out.append(list(Perm((1, 3, 0, 2)).inflate([rnd.choice([Perm.identity, Perm.monotone_decreasing])(k) for k in sizes])))
+    out += [list(range(1, n)) + [0], [n - 1] + list(range(n - 1)), [(i * 3) % n for i in range(n)] if n % 3 else list(range(n))]
+    out.append([v for pair in zip(range(m), range(n - 1, n - 1 - m, -1)) for v in pair] + ([m] if n % 2 else []))   # 0 n-1 1 n-2 ..
+    return [q for q in out if sorted(q) == list(range(n))]
+
+
+def single_statistic_probes(ctx, tab):
+    """Many cheap questions on permutations of length 7-10: one statistic per event (Trace_C11b), every permutation held as
+    ONE object on which each chosen statistic is asked twice (second round in another order, after the others)."""
+    quick = ctx.tier == "quick"
+    one = []
+    # the sample that has been asked since the first hardening round (kept as it was: same stream, same statistics)
+    rnd_one = util.rng(ctx, 1111)
+    for _ in range(260 if quick else 1500):
+        q = util.rand_perm(rnd_one, rnd_one.choice([7, 7, 7, 8, 8, 9]))
+        for stat in (("holeyness",) if len(q) <= 8 else ()) + tuple(rnd_one.sample(sorted(ORIGINAL_ONE), 2)):
+            st_, got_ = util.call(ONE_INT[stat], Perm(q))
+            if st_ == "ok" and isinstance(got_, int) and not isinstance(got_, bool):
+                one.append({"op": "One", "stat": stat, "p": list(q), "res": got_})
+    # every cheap statistic, structured and random inputs, each object asked twice
+    rnd = util.rng(ctx, 1112)
+    perms = []
+    for n in (7, 8, 9, 10):
+        perms += special_perms(rnd, n)
+    perms += [list(util.rand_perm(rnd, rnd.choice([7, 8, 8, 9, 9, 10]))) for _ in range(60 if quick else 600)]
+    shortcuts = {}
+    for nm in SHORTCUTS:
+        st_, obj = util.call(getattr(PS, nm, None) or (lambda: None))
+        if st_ == "ok" and obj is not None and getattr(obj, "name", None) in NAMES and callable(getattr(obj, "func", None)):
+            shortcuts[nm] = obj
+        else:
+            ctx.drift("PermutationStatistic.%s() is not available / not a named statistic (not judged)" % nm)
+    asked = 0
+    nstructured = len(perms) - (60 if quick else 600)
+    for pidx, q in enumerate(perms):
+        P = Perm(q)
+        n = len(q)
+        named_ok = [k for k in NAMED_CHEAP if NAMES[k - 1] in tab and (k != 21 or n <= 8)]
+        if pidx < nstructured:
+            # structured inputs: EVERY cheap statistic (a shortcut taken for a special shape goes wrong on few inputs only)
+            plan = [("int", s_) for s_ in sorted(ONE_INT)] + [("list", s_) for s_ in sorted(ONE_LIST)] + [("named", k) for k in named_ok]
+            plan += [("step", (st_name, step)) for st_name in ("descents_step", "ascents_step") for step in (1, 2, n - 1)]
+            plan += [("shortcut", nm) for nm in sorted(shortcuts)]
+            rnd.shuffle(plan)
+            second = rnd.sample(plan, 12)
+        else:
+            plan = [("int", s_) for s_ in rnd.sample(sorted(ONE_INT), 7)] + [("list", s_) for s_ in rnd.sample(sorted(ONE_LIST), 4)]
+            plan += [("named", k) for k in rnd.sample(named_ok, 2)]
+            plan += [("step", (rnd.choice(["descents_step", "ascents_step"]), rnd.randint(1, n - 1)))]
+            if shortcuts and rnd.random() < 0.5:
+                plan.append(("shortcut", rnd.choice(sorted(shortcuts))))
+            if n > 8:
+                plan = [x for x in plan if x != ("int", "holeyness")] + ([("int", "holeyness")] if rnd.random() < 0.3 else [])
+            second = list(plan)
+            rnd.shuffle(second)
+        for rnd_no, (kind, what) in enumerate(plan + second):
+            case = {"kind": "single-statistic", "p": list(q), "stat": str(what), "asked": "first" if rnd_no < len(plan) else "again, same object"}
+            if kind == "int":
+                st_, got_ = util.call(ONE_INT[what], P)
+                ev = {"op": "One", "stat": what, "p": list(q), "res": got_}
+                ok_shape = isinstance(got_, int) and not isinstance(got_, bool)
+            elif kind == "list":
+                st_, got_ = util.call(ONE_LIST[what], P)
+                ev = {"op": "OneList", "stat": what, "p": list(q), "res": got_}
+                ok_shape = st_ == "ok" and shape_ok(LIST_SHAPE.get(what, "des"), got_)
+            elif kind == "named":
+                st_, got_ = util.call(tab[NAMES[what - 1]][1], P)
+                ev = {"op": "One", "stat": "named", "k": what, "p": list(q), "res": got_}
+                ok_shape = isinstance(got_, int) and not isinstance(got_, bool)
+            elif kind == "shortcut":
+                obj = shortcuts[what]
+                st_, got_ = util.call(obj.func, P)
+                ev = {"op": "One", "stat": "named", "k": NAMES.index(obj.name) + 1, "p": list(q), "res": got_, "via": "PermutationStatistic.%s()" % what}
+                ok_shape = isinstance(got_, int) and not isinstance(got_, bool)
+            else:
+                stat, step = what
+                meth = P.count_descents if stat == "descents_step" else P.count_ascents
+                st_, got_ = util.call(lambda: kw_or_positional(ctx, meth, ("step_size",), step)) if rnd_no % 2 else util.call(meth, step)
+                ev = {"op": "One", "stat": stat, "s": step, "p": list(q), "res": got_}
+                ok_shape = isinstance(got_, int) and not isinstance(got_, bool)
+            asked += 1
+            if st_ == "raise":
+                ctx.violation(case, "NoException", "a value", {"raised": got_})
+            elif not ok_shape:
+                ctx.violation(case, "StatisticIsItsDefinition", "a value of the documented shape", repr(got_)[:200])
+            else:
+                ev["asked"] = case["asked"]
+                one.append(ev)
+    nch = 8
+    chunks_ = [one[k::nch] for k in range(nch)]
+    with concurrent.futures.ThreadPoolExecutor(max_workers=nch) as ex_:
+        vs_ = list(ex_.map(lambda ch: util.validate_trace(ctx, "Trace_C11b", ch, ntraces=len(ch), timeout=3000), chunks_))
+    for ch, v_ in zip(chunks_, vs_):
+        for b_ in v_["verdict"]:
+            ev_ = ch[b_["i"] - 1]
+            ctx.violation({"kind": "single-statistic", "event": ev_}, "StatisticIsItsDefinition:" + b_["clause"], "value by definition (lib Stats)", ev_["res"])
+    ctx.case(n=len(one))
+    for q in perms[:60]:
+        ctx.nontrivial.add(("single", tuple(q)))
+    ctx.note("single_statistic_events_lengths_7_to_10", {"events": len(one), "permutations_each_asked_twice": len(perms), "calls": asked})
+
+
 def run(ctx):
     quick = ctx.tier == "quick"
     rnd = util.rng(ctx, 11)
@@ -698,6 +981,8 @@ def run(ctx):
         jobs.append(("perm", ("C11_Stats", util.cfg(init="Init", next_="Stutter", invariants=STATS_INVS + ["EmitState"], constants=k),
                               {"timeout": 3000})))
     bijs = random_bijections(rnd, 6 if quick else 36)
+    # degenerate data: the empty bijection (every identity holds vacuously), empty -> empty, a single fixed pair
+    bijs += [[], [((), ())], [((0,), (0,))], [((), (0,)), ((0,), ())]]
     tjobs, expect, maxlen, dist_maxlen = tools_jobs(quick, bijs, [] if quick else FULL_PAIRS)
     jobs += tjobs
     # longest-running first
@@ -779,28 +1064,7 @@ def run(ctx):
     judge_trace(ctx, judge, events, v["verdict"])
     judge.finish()
     # ---- single statistics on many longer permutations (cheap definitions, one per event) ------------------
-    one = []
-    calls = {"holeyness": lambda P: P.holeyness(), "bounces": lambda P: P.count_bounces(), "max_drop_size": lambda P: P.max_drop_size(),
-             "column_sum_primes": lambda P: P.count_column_sum_primes(), "order": lambda P: P.order(), "depth": lambda P: P.depth(),
-             "major_index": lambda P: P.major_index(), "inversions": lambda P: P.count_inversions(),
-             "longest_decreasing_run": lambda P: P.length_of_longestrun_descending()}
-    rnd_one = util.rng(ctx, 1111)
-    for _ in range(260 if ctx.tier == "quick" else 1500):
-        q = util.rand_perm(rnd_one, rnd_one.choice([7, 7, 7, 8, 8, 9]))
-        for stat in (("holeyness",) if len(q) <= 8 else ()) + tuple(rnd_one.sample(sorted(set(calls) - {"holeyness"}), 2)):
-            st_, got_ = util.call(calls[stat], Perm(q))
-            if st_ == "ok" and isinstance(got_, int):
-                one.append({"op": "One", "stat": stat, "p": list(q), "res": got_})
-    chunks_ = [one[k::6] for k in range(6)]
-    import concurrent.futures as _cf
-    with _cf.ThreadPoolExecutor(max_workers=6) as ex_:
-        vs_ = list(ex_.map(lambda ch: util.validate_trace(ctx, "Trace_C11b", ch, ntraces=len(ch), timeout=3000), chunks_))
-    for ch, v_ in zip(chunks_, vs_):
-        for b_ in v_["verdict"]:
-            ev_ = ch[b_["i"] - 1]
-            ctx.violation({"kind": "single-statistic", "event": ev_}, "StatisticIsItsDefinition:" + b_["clause"], "value by definition (lib Stats)", ev_["res"])
-    ctx.case(n=len(one))
-    ctx.note("single_statistic_events_lengths_7_to_9", len(one))
+    single_statistic_probes(ctx, tab)
     ctx.rule = ("TLC enumerates every permutation of the universe with the value of every statistic / listing BY DEFINITION "
                 "(Stats.tla) and every datum (class level, pair of classes, bijection) with the defining identities of the tools; "
                 "each record is replayed through every method / tool of the real code (listings as sorted lists, counts against "
